@@ -37,9 +37,13 @@ CHECKS = {
         "convertbits round trip and HRP-character substitutions are covered by the correspondence run only. A refusal of a string the Spec would accept "
         "(upper-case Bech32 in Address.parse, ambiguous litecoin WIF without network) is counted, not treated as a violation: C11 constrains acceptance."),
  'C06': dict(
-   technique='Lean 4 theorems (parse∘serialise = id for transactions and blocks, any counts/sizes) + independent Lean parser run against Transaction.parse / Block.parse on synthetic, corpus and real mainnet data',
+   technique='Lean 4 theorems (parse∘serialise = id for transactions and blocks, any counts/sizes; serialise∘parse = id on EVERY byte string the strict reader accepts, for transactions and headers; the strict reader refines the compared one) + independent Lean parser run against Transaction.parse / Block.parse on synthetic, corpus and real mainnet data',
    text=("Proved in Lean for all inputs: parseTx (serTx t ++ r) = (t, r) for every well-formed transaction (legacy or BIP144, any number of inputs, "
-         "outputs and witness items, any script sizes below 2^64) by induction over the lists; the txid serialisation ignores witness data; 80-byte "
+         "outputs and witness items, any script sizes below 2^64) by induction over the lists; in the direction the property is worded: for EVERY byte "
+         "string, what the strict reader parseTxS (parseTx with shortest-form CompactSize counts only) accepts re-serialises to exactly the bytes read "
+         "(serTx_parseTxS), it accepts every serialisation of a well-formed transaction (parseTxS_serTx) and wherever it accepts, the reader that is "
+         "run against the library returns the same transaction (parseTxS_refines); the same for block headers on every byte string "
+         "(serHeader_readHeader, accepted = at least 80 bytes); the txid serialisation ignores witness data; 80-byte "
          "header round trip; parseBlock (serBlock b ++ r) = (b, r); the library's target formula equals consensus SetCompact for exponent >= 3 and "
          "clear sign bit. The Lean parser, SHA-256d (native) and serialiser are an independent implementation: every synthetic transaction (independent "
          "harness serialiser; empty/one-byte/non-standard scripts, coinbase, counts across 252/253), the repository's raw vectors and every transaction "
